@@ -259,6 +259,7 @@ type c04World struct {
 	logSeen int
 	// per queue: the previous non-allowed failure (for the retry-timing oracle)
 	lastFail map[int]*c04BoCall
+	notAfter time.Time // set while events are fired into a back-off: the earliest moment that back-off can end
 	running  map[int]*c04Running
 }
 
@@ -527,7 +528,18 @@ func (w *c04World) taskLine(s c04Snap, qn int) string {
 // attributes the generated hook configuration prescribes.
 func (w *c04World) arrived(h c04Hook, before int, af bool, group int, bt int, bname string, ctxType int) bool {
 	deadline := time.Now().Add(30 * time.Second)
-	for w.queueLen(h.Queue) <= before {
+	for {
+		grown := w.queueLen(h.Queue) > before
+		// An arrival fired during a back-off has to be seen in the queue before that back-off can
+		// have ended (the worker then picks the head again and merges the new task into it: the
+		// queue shrinks back and what the harness sees no longer tells which came first).
+		if !w.notAfter.IsZero() && !time.Now().Before(w.notAfter) {
+			w.c.Inconcl = "an event fired during a back-off was not seen in the queue before the back-off could end (machine too busy): order of arrival and retry undetermined"
+			return false
+		}
+		if grown {
+			break
+		}
 		if time.Now().After(deadline) {
 			w.c.Op(fmt.Sprintf("task 999 q=%d hook=%d", h.Queue, h.Num), "event-not-queued")
 			return false
@@ -535,6 +547,14 @@ func (w *c04World) arrived(h c04Hook, before int, af bool, group int, bt int, bn
 		time.Sleep(time.Millisecond)
 	}
 	ss := w.snapQueue(w.op.TaskQueues.GetByName(c04QueueName(h.Queue)))
+	if !w.notAfter.IsZero() && !time.Now().Before(w.notAfter) {
+		w.c.Inconcl = "an event fired during a back-off was read off the queue when the back-off could already have ended (machine too busy)"
+		return false
+	}
+	if len(ss) <= before {
+		w.c.Op(fmt.Sprintf("task 999 q=%d hook=%d", h.Queue, h.Num), "queue-shrank-while-reading")
+		return false
+	}
 	nt := ss[len(ss)-1]
 	w.known[nt.id] = true
 	w.imu.Lock()
@@ -852,12 +872,17 @@ func c04Execute(c *Case, r *Run, p c04Plan) {
 			}
 			if st == "fail" && withArrivals && p.boArrivals != nil {
 				// a task appended while the queue is sleeping in its back-off must not shorten it
+				if lf := w.lastFail[qn]; lf != nil {
+					w.notAfter = lf.at.Add(lf.delay - 2*time.Millisecond)
+				}
 				for _, e := range p.boArrivals(qn, step) {
 					if !w.fire(p, e) {
+						w.notAfter = time.Time{}
 						return false
 					}
 					c.Note("arrival:during-backoff")
 				}
+				w.notAfter = time.Time{}
 			}
 		}
 		return true
@@ -943,7 +968,7 @@ func c04FailMode(rng *Rng) string {
 func c04Random(c *Case, rng *Rng, r *Run) {
 	kube := rng.Chance(60)
 	hooks := c04GenHooks(rng, rng.Range(1, 3), kube)
-	p := c04Plan{hooks: hooks, boInit: time.Duration(rng.Range(15, 30)) * time.Millisecond, boStep: 5 * time.Millisecond,
+	p := c04Plan{hooks: hooks, boInit: time.Duration(rng.Range(30, 60)) * time.Millisecond, boStep: 5 * time.Millisecond,
 		initial: map[int][]c04Ev{}, maxSteps: 60}
 	if rng.Chance(15) {
 		p.realBo = true // real CalculateDelay(init, 0): tasks fail at most once
